@@ -2,15 +2,19 @@
    Only property statements here.  Vocabulary:
      run c evs            the sequence of file-system-layer calls hls.Muxer makes for the history evs (HlsMuxer.v)
      state_at c evs k     the file system after the first k calls (a crash point); ver_at = playlist versions published so far
-     wf_evs c Clean evs   histories from an empty stream directory in which a 376-byte PAT/PMT is fed before the first
-                          frame of each publication, frames are whole 188-byte packets, and a re-publication happens
-                          only after the deferred cleanup removed the directory (the other case: c10_republish_seq_refuted)
+     wf_evs c Clean 0 evs histories from an empty stream directory in which a 376-byte PAT/PMT is fed before the first
+                          frame of each publication and frames are whole 188-byte packets.  A stream may be published
+                          again over the directory of its previous publication (no cleanup in between) provided fewer
+                          than 2^31 fragments have been closed since the directory was last empty (the counter argument
+                          of wf_evs: a frame closes at most two fragments, Dispose one; calcNextSeqInM3u8 refuses a
+                          larger media sequence and the numbering would start at 0 again)
      cfg_ok c             fragment_num >= 1, delete_threshold >= 0, 0 <= fragment_duration_ms <= 2^35, and the stream name
                           contains no LF and does not start with '#'
      parse_live           a strict parser for media playlists (HlsParse.v); a result means "parses completely" *)
 From Coq Require Import ZArith Bool List Lia.
 From Lal Require Import Common.LBytes Hls.HlsFloat Hls.HlsFs Hls.HlsPlaylist Hls.HlsParse Hls.HlsMuxer Hls.HlsConsistent
-  Hls.HlsInv Hls.HlsRunProofs Hls.HlsTraceProofs Hls.HlsFinalProofs Hls.HlsLossProofs Hls.HlsRecordProofs.
+  Hls.HlsInv Hls.HlsRunProofs Hls.HlsTraceProofs Hls.HlsFinalProofs Hls.HlsLossProofs Hls.HlsRecordProofs
+  Hls.HlsServer Hls.HlsServerProofs.
 Open Scope Z_scope.
 
 (* At EVERY prefix of the operation sequence: the live playlist, if present, is a complete playlist (it parses
@@ -18,14 +22,14 @@ Open Scope Z_scope.
    (as listed, "%.3f") rounded to the nearest second; every listed segment exists, is closed, is a whole number of
    188-byte packets and begins with a PAT/PMT. *)
 Theorem c10_inv_every_prefix : forall c evs k,
-  cfg_ok c -> wf_evs c Clean evs -> live_ok c (state_at c evs k).
+  cfg_ok c -> wf_evs c Clean 0 evs -> live_ok c (state_at c evs k).
 Proof. exact every_prefix_live_ok. Qed.
 Print Assumptions c10_inv_every_prefix.
 
 (* The same in terms of the parse result alone: every URI listed names a file that exists, is closed, is whole TS
    packets and begins with PAT/PMT, and its listed duration rounded to the nearest second is at most the target. *)
 Theorem c10_parsed_playlist_consistent : forall c evs k f t,
-  cfg_ok c -> wf_evs c Clean evs ->
+  cfg_ok c -> wf_evs c Clean 0 evs ->
   fs_lookup PLive (state_at c evs k) = Some f -> parse_live (fdata f) = Some t ->
   forall ts, In ts (t_segs t) ->
     (t_ms ts + 500) / 1000 <= t_target t /\
@@ -34,9 +38,10 @@ Proof. exact every_prefix_parsed. Qed.
 Print Assumptions c10_parsed_playlist_consistent.
 
 (* The media sequence number never decreases from one instant to a later one (as long as the directory is not
-   removed in between): whatever the two texts parse to. *)
+   removed in between): whatever the two texts parse to.  Also ACROSS re-publications of the stream name: Muxer.Start
+   (resumeSeq) carries on with the numbering of the live playlist it finds. *)
 Theorem c10_media_sequence_monotone : forall c evs j k fj fk tj tk,
-  cfg_ok c -> wf_evs c Clean evs -> (j <= k)%nat ->
+  cfg_ok c -> wf_evs c Clean 0 evs -> (j <= k)%nat ->
   no_removeall (skipn j (firstn k (run c evs))) ->
   fs_lookup PLive (state_at c evs j) = Some fj -> fs_lookup PLive (state_at c evs k) = Some fk ->
   parse_live (fdata fj) = Some tj -> parse_live (fdata fk) = Some tk -> t_seq tj <= t_seq tk.
@@ -44,9 +49,10 @@ Proof. exact media_sequence_parsed. Qed.
 Print Assumptions c10_media_sequence_monotone.
 
 (* Segments listed by the playlist at instant j are still present, closed and well-formed at every later instant k
-   by which at most delete_threshold further playlist versions have been published. *)
+   by which at most delete_threshold further playlist versions have been published - also when the stream has been
+   published again in between: a muxer only ever touches files it numbers itself. *)
 Theorem c10_listed_segments_stay : forall c evs j k fj,
-  cfg_ok c -> wf_evs c Clean evs -> (j <= k)%nat ->
+  cfg_ok c -> wf_evs c Clean 0 evs -> (j <= k)%nat ->
   no_removeall (skipn j (firstn k (run c evs))) ->
   ver_at c evs k - ver_at c evs j <= c_thr c ->
   fs_lookup PLive (state_at c evs j) = Some fj ->
@@ -61,9 +67,10 @@ Theorem c10_no_loss : forall c evs, fst (fws false (run c evs)) = accepted false
 Proof. exact no_loss. Qed.
 Print Assumptions c10_no_loss.
 
-(* ... and they are in sequence order: segment ids are 0,1,2,... within a publication and every Write / Close
-   goes to the segment created last (wrs checks exactly that while scanning the operation sequence). *)
-Theorem c10_segments_in_sequence : forall c evs, exists r, wrs None 0 (run c evs) = Some r.
+(* ... and they are in sequence order: segment ids are consecutive within a publication (from 0 when Start found no
+   live playlist; otherwise from wherever Start carried on) and every Write / Close goes to the segment created last
+   (wrs checks exactly that while scanning the operation sequence). *)
+Theorem c10_segments_in_sequence : forall c evs, exists r, wrs None None (run c evs) = Some r.
 Proof. exact segments_in_sequence. Qed.
 Print Assumptions c10_segments_in_sequence.
 
@@ -79,14 +86,15 @@ Print Assumptions c10_segment_start.
 
 (* When the stream ends (Dispose) the live playlist, if there is one, carries the end marker. *)
 Theorem c10_final_live : forall c evs,
-  cfg_ok c -> wf_evs c Clean (evs ++ [EvDispose]) -> ended c (apply_all [] (run c (evs ++ [EvDispose]))).
+  cfg_ok c -> wf_evs c Clean 0 (evs ++ [EvDispose]) -> ended c (apply_all [] (run c (evs ++ [EvDispose]))).
 Proof. exact final_live_ended. Qed.
 Print Assumptions c10_final_live.
 
 (* ... and, unless cleanup is immediate (cleanup_mode 0 or 1), the record playlist is a complete playlist with the end
-   marker that lists, in order, every segment created since the directory was last removed. *)
+   marker that lists, in order, every segment created since the directory was last removed (by this publication and
+   by the ones before it). *)
 Theorem c10_final_record : forall c evs,
-  cfg_ok c -> mode01 c -> wf_evs c Clean (evs ++ [EvDispose]) ->
+  cfg_ok c -> mode01 c -> wf_evs c Clean 0 (evs ++ [EvDispose]) ->
   let ops := run c (evs ++ [EvDispose]) in
   created_from [] ops <> [] ->
   exists T segs, fs_lookup PRec (apply_all [] ops) = Some (mkfile (print_record (c_stream c) (mkpl T 0 segs true)) true)
@@ -94,17 +102,22 @@ Theorem c10_final_record : forall c evs,
 Proof. exact final_record. Qed.
 Print Assumptions c10_final_record.
 
-(* Re-publishing over the directory of the previous publication (no cleanup in between, e.g. cleanup mode 0):
-   the media sequence goes from 2 back to 0.  Known finding C10-republish-media-sequence-restarts. *)
-Theorem c10_republish_seq_refuted :
-  exists c evs j k fj fk tj tk,
-    cfg_ok c /\ (j <= k)%nat /\ no_removeall (skipn j (firstn k (run c evs))) /\
-    fs_lookup PLive (state_at c evs j) = Some fj /\ fs_lookup PLive (state_at c evs k) = Some fk /\
-    parse_live (fdata fj) = Some tj /\ parse_live (fdata fk) = Some tk /\ t_seq tk < t_seq tj.
+(* Re-publishing over the directory of the previous publication (no cleanup in between, e.g. cleanup mode 0) on the
+   PINNED tree (run_orig: Muxer.Start = ensureDir only): the media sequence goes from 2 back to 0.  Fixed in lal
+   (resumeSeq / calcNextSeqInM3u8); run models the fixed code, for which c10_media_sequence_monotone holds across
+   re-publications - on the same history the sequence goes from 2 to 3 (c10_republish_seq_witness). *)
+Definition rp_cfg : cfg := mkcfg [115%N] 1000 1 0 0.
+Definition rp_evs : list event :=
+  [EvNew; EvPatPmt []; EvFeed false 0 0 true 5 []; EvFeed false 0 90000 true 6 []; EvFeed false 0 180000 true 7 [];
+   EvDispose; EvNew; EvPatPmt []; EvFeed false 0 0 true 9 []; EvFeed false 0 90000 true 10 []].
+
+Theorem c10_republish_seq_orig_refuted :
+  exists j k fj fk tj tk,
+    cfg_ok rp_cfg /\ (j <= k)%nat /\ no_removeall (skipn j (firstn k (run_orig rp_cfg rp_evs))) /\
+    fs_lookup PLive (apply_all [] (firstn j (run_orig rp_cfg rp_evs))) = Some fj /\
+    fs_lookup PLive (apply_all [] (firstn k (run_orig rp_cfg rp_evs))) = Some fk /\
+    parse_live (fdata fj) = Some tj /\ parse_live (fdata fk) = Some tk /\ t_seq tj = 2 /\ t_seq tk = 0.
 Proof.
-  exists (mkcfg [115%N] 1000 1 0 0),
-    [EvNew; EvPatPmt []; EvFeed false 0 0 true 5 []; EvFeed false 0 90000 true 6 []; EvFeed false 0 180000 true 7 [];
-     EvDispose; EvNew; EvPatPmt []; EvFeed false 0 0 true 9 []; EvFeed false 0 90000 true 10 []].
   exists 30%nat, 36%nat.
   do 4 eexists.
   split; [unfold cfg_ok, stream_ok, no_nl; cbn; intuition (try lia; try discriminate)|].
@@ -113,9 +126,23 @@ Proof.
   split; [vm_compute; reflexivity|].
   split; [vm_compute; reflexivity|].
   split; [vm_compute; reflexivity|].
-  split; [vm_compute; reflexivity|vm_compute; reflexivity].
+  split; [vm_compute; reflexivity|split; vm_compute; reflexivity].
 Qed.
-Print Assumptions c10_republish_seq_refuted.
+Print Assumptions c10_republish_seq_orig_refuted.
+
+Example c10_republish_seq_witness :
+  exists fj fk tj tk,
+    fs_lookup PLive (state_at rp_cfg rp_evs 31) = Some fj /\ fs_lookup PLive (state_at rp_cfg rp_evs 38) = Some fk /\
+    parse_live (fdata fj) = Some tj /\ parse_live (fdata fk) = Some tk /\ t_seq tj = 2 /\ t_seq tk = 3 /\
+    no_removeall (skipn 31 (firstn 38 (run rp_cfg rp_evs))).
+Proof.
+  do 4 eexists.
+  split; [vm_compute; reflexivity|].
+  split; [vm_compute; reflexivity|].
+  split; [vm_compute; reflexivity|].
+  split; [vm_compute; reflexivity|].
+  split; [vm_compute; reflexivity|]. split; [vm_compute; reflexivity|vm_compute; repeat constructor].
+Qed.
 
 (* F-16 and its sibling, on the pinned tree's computation (live_target_orig): the target duration is smaller
    than a listed duration rounded to the nearest second.
@@ -135,6 +162,47 @@ Proof.
 Qed.
 Print Assumptions c10_target_orig_refuted.
 
+(* ---- the server level: ServerManager / Group / the delayed cleanup (HlsServer.v) ----
+     srv_exec true c srv0 [] sevs   per event of the server history sevs (publish, PAT/PMT, frame, stop, housekeeping
+                                    tick, a delayed cleanup firing): (was a muxer alive for the stream name at that
+                                    instant, the layer calls the event made)
+     srv_run c sevs                 all the calls;  lower c sevs = the same history as HlsMuxer.run sees it *)
+
+(* For EVERY interleaving of publish / stop (arms the delayed cleanup) / tick (erases the idle group) / re-publish
+   (fresh group) / fire: an event removes the stream directory only at an instant at which no muxer is alive for the
+   stream name - a delayed cleanup never removes the files of a live muxer ... *)
+Theorem c10_cleanup_spares_live_muxer : forall c sevs, Forall spares_live (srv_exec true c srv0 [] sevs).
+Proof. intros c sevs. apply cleanup_spares_live_from. Qed.
+Print Assumptions c10_cleanup_spares_live_muxer.
+
+(* ... and the only event that ever removes it is a firing delayed cleanup. *)
+Theorem c10_only_delayed_cleanup_removes : forall c sevs k e r,
+  nth_error sevs k = Some e -> nth_error (srv_exec true c srv0 [] sevs) k = Some r ->
+  existsb is_removeall (snd r) = true -> e = SvFire.
+Proof. intros c sevs. apply only_fire_removes. Qed.
+Print Assumptions c10_only_delayed_cleanup_removes.
+
+(* The server makes exactly the calls of the muxer-level history `lower c sevs`: the trace theorems above hold for
+   server histories (here: the consistency of every prefix). *)
+Theorem c10_server_refines_muxer : forall c sevs, srv_run c sevs = run c (lower c sevs).
+Proof. exact srv_refines. Qed.
+Print Assumptions c10_server_refines_muxer.
+
+Theorem c10_server_inv_every_prefix : forall c sevs k,
+  cfg_ok c -> wf_evs c Clean 0 (lower c sevs) -> live_ok c (apply_all [] (firstn k (srv_run c sevs))).
+Proof. intros c sevs k Hc Hw. rewrite srv_refines. now apply every_prefix_live_ok. Qed.
+Print Assumptions c10_server_inv_every_prefix.
+
+(* The design in which the fired closure consults the Group object it found when the timer was ARMED (seeded change
+   C10r2-2) is refuted: publish, stop, tick (that group is erased), publish (fresh group), fire removes the directory
+   while the second publication's muxer is alive; the faithful lookup by name spares it on the same history. *)
+Theorem c10_cleanup_captured_group_refuted :
+  exists c r, In r (srv_exec false c srv0 [] [SvPub; SvStop; SvTick; SvPub; SvFire]) /\
+              existsb is_removeall (snd r) = true /\ fst r = true /\
+              Forall spares_live (srv_exec true c srv0 [] [SvPub; SvStop; SvTick; SvPub; SvFire]).
+Proof. exact captured_group_removes_live. Qed.
+Print Assumptions c10_cleanup_captured_group_refuted.
+
 (* ---- non-vacuity: a history that meets the hypotheses and publishes playlists ---- *)
 Definition ex_pp : bytes := ([71; 64; 0] ++ repeat 0 185 ++ [71; 80; 1] ++ repeat 0 185)%N%list.
 Definition ex_pk (k : N) : bytes := ([71; 65; 0; k] ++ repeat 0 184)%N%list.
@@ -144,14 +212,37 @@ Definition ex_evs : list event :=
    EvFeed false 0 180000 true 7 (ex_pk 3); EvDispose; EvCleanup; EvNew; EvPatPmt ex_pp].
 
 Example c10_hypotheses_satisfiable :
-  cfg_ok ex_cfg /\ wf_evs ex_cfg Clean ex_evs /\
-  length (run ex_cfg ex_evs) = 23%nat /\
-  (exists f, fs_lookup PLive (state_at ex_cfg ex_evs 15) = Some f /\
+  cfg_ok ex_cfg /\ wf_evs ex_cfg Clean 0 ex_evs /\
+  length (run ex_cfg ex_evs) = 25%nat /\
+  (exists f, fs_lookup PLive (state_at ex_cfg ex_evs 16) = Some f /\
      fdata f = print_live [115%N] (mkpl 1 1 [mkseg 6 1 (f_div (f_of_Z 90000) (f_of_Z 90000)) false] false)) /\
-  ver_at ex_cfg ex_evs 15 = 2.
+  ver_at ex_cfg ex_evs 16 = 2.
 Proof.
   split; [unfold cfg_ok, stream_ok, no_nl; cbn; intuition (try lia; try discriminate)|].
   split; [cbn; unfold good_pp, whole_pkts; repeat split; reflexivity|].
   split; [vm_compute; reflexivity|].
   split; [eexists; split; vm_compute; reflexivity|vm_compute; reflexivity].
+Qed.
+
+(* ... and one that publishes the stream again over the directory of the previous publication (cleanup mode 0):
+   the hypotheses hold, and the first playlist of the second publication shows media sequence 3 after 2 *)
+Definition ex_cfg0 : cfg := mkcfg [115%N] 1000 1 0 0.
+Definition ex_evs_rp : list event :=
+  [EvNew; EvPatPmt ex_pp; EvFeed false 0 0 true 5 (ex_pk 1); EvFeed false 0 90000 true 6 (ex_pk 2);
+   EvFeed false 0 180000 true 7 (ex_pk 3); EvDispose; EvNew; EvPatPmt ex_pp;
+   EvFeed false 0 0 true 9 (ex_pk 4); EvFeed false 0 90000 true 10 (ex_pk 5)].
+
+Example c10_hypotheses_satisfiable_republish :
+  cfg_ok ex_cfg0 /\ wf_evs ex_cfg0 Clean 0 ex_evs_rp /\
+  (exists fj fk tj tk,
+     fs_lookup PLive (state_at ex_cfg0 ex_evs_rp 31) = Some fj /\ fs_lookup PLive (state_at ex_cfg0 ex_evs_rp 38) = Some fk /\
+     parse_live (fdata fj) = Some tj /\ parse_live (fdata fk) = Some tk /\ t_seq tj = 2 /\ t_seq tk = 3).
+Proof.
+  split; [unfold cfg_ok, stream_ok, no_nl; cbn; intuition (try lia; try discriminate)|].
+  split; [cbn; unfold good_pp, whole_pkts, max_int32; repeat split; try reflexivity; lia|].
+  do 4 eexists.
+  split; [vm_compute; reflexivity|].
+  split; [vm_compute; reflexivity|].
+  split; [vm_compute; reflexivity|].
+  split; [vm_compute; reflexivity|]. split; vm_compute; reflexivity.
 Qed.
